@@ -134,6 +134,34 @@ def r08_2_user_code(ctx, rid='R08.2'):
             ok, why = S.handler_converts(f, hs[0])
             r.check(ok, '%s: %s under `except %s` that converts to RecognitionError / REJECT' % (f.fi.qual, norm(c)[:40], norm(hs[0].type) if hs[0].type else ''),
                     f.key('handler:%s' % what), f.loc(hs[0]), 'the handler around the %s call does not convert: %s' % (what, why))
+    # any other call of a *value* (a parameter or local holding a class or callable that came from the user: `expected_type(text)`,
+    # `class_(...)`, `factory()`): user code as well - it needs an `except Exception` handler that converts
+    LOAD_MODULES = ('yatiml.loader', 'yatiml.recognizer', 'yatiml.constructors', 'yatiml.util', 'yatiml.introspection',
+                    'yatiml.helpers', 'yatiml.irecognizer')
+    n_fns = 0
+    for fi in P.yatiml_functions():
+        if fi.module.name not in LOAD_MODULES:
+            continue
+        n_fns += 1
+        node_ = fi.node
+        params = {a.arg for a in ast.walk(node_.args) if isinstance(a, ast.arg)}
+        locs = {x.id for x in ast.walk(node_) if isinstance(x, ast.Name) and isinstance(x.ctx, ast.Store)}
+        nested = {x.name for x in ast.walk(node_) if isinstance(x, (ast.FunctionDef, ast.AsyncFunctionDef, ast.ClassDef)) and x is not node_}
+        dyn = [c for c in ast.walk(node_) if isinstance(c, ast.Call) and isinstance(c.func, ast.Name) and c.func.id in (params | locs) - nested]
+        if not dyn:
+            continue
+        g = S.fn_of(fi)
+        for c in dyn:
+            if not g.live(c):
+                continue
+            h = S.handler_for(g, c, {'Exception', 'BaseException'})
+            ok = h is not None and S.handler_converts(g, h)[0]
+            r.check(ok, '%s: call of the value %s under a converting `except Exception`' % (fi.qual, c.func.id),
+                    g.key('user-callable:%s' % g.alpha.text(c)[:50]), g.loc(c),
+                    '%s calls %s, a class or callable that comes from the user, outside a handler that converts every exception to '
+                    'RecognitionError: whatever it raises (KeyError, IndexError, TypeError ...) escapes the load function'
+                    % (fi.key, norm(c)[:50]))
+    r.ok('%d load-side functions scanned for calls of parameter/local values' % n_fns)
     # savorize: the hook call is in __savorize; the converting handler is around the hook call itself or at its only caller
     f = fn(P, S.PN)
     sv = fn(P, 'yatiml.loader:Loader.__savorize')
